@@ -152,6 +152,19 @@ def run_expected(run: Run) -> None:
     for k in range(16 if quick else 64):
         gs = [("GEN", fam[k % len(fam)], 4, gens.seed_window(seed, 1)[0] + 7 * k + j) for j in range(4 if k % 4 else 2)]   # one family per configuration
         us.append((4, gs, ("superadditive", "superadditive_cached")[k % 2], "linf_norm", 6, len(gs), [(1, "p1", [0])], f"gen4-linf-{fam[k % len(fam)]}#{k}"))
+    # discrete generators repeat games: the mean is over the SAMPLES (equal games with unequal multiplicities weigh accordingly)
+    k = 0
+    for a in range(3):
+        for b in range(3):
+            if a == b:
+                continue
+            for mult in ((3, 1), (1, 3)):
+                for gap_name in ("l1_norm", "exploitability"):
+                    gs4 = [picks4[a]] * mult[0] + [picks4[b]] * mult[1]
+                    us.append((4, gs4, ("superadditive", "superadditive_cached")[k % 2], gap_name, 3, 4, [(1, "p1", [0])], f"dup4-{a}{b}-{mult[0]}{mult[1]}"))
+                    k += 1
+    gs3 = [picks3[0]] * 3 + [picks3[1]] + [picks3[2]] * 2
+    us.append((3, gs3, "superadditive", "l1_norm", 3, 6, [(1, "p1", [0]), (2, "round-robin", [0, 1])], "dup3-312"))
     # tiny units: every mean gap (and every difference between candidates) is far below 1e-6 in absolute terms
     us.append((3, [A.scaled(g, A.TINY) for g in picks3[:3]], "superadditive", "l1_norm", 3, 2, schedules(2, True), "tiny3"))
     us.append((4, [A.scaled(g, A.TINY) for g in picks4[:2]], "superadditive_cached", "exploitability", 3, 2, [(1, "p1", [0]), (2, "round-robin", [0, 1])], "tiny4"))
